@@ -24,7 +24,10 @@ def harnesses_for(prop, tier):
     for name, h in HREG.H.items():
         if prop not in h['props']:
             continue
-        if tier == 'quick' and h.get('tier', 'quick') != 'quick':
+        ht = h.get('tier', 'quick')
+        if ht == 'stretch' and tier != 'stretch':
+            continue
+        if tier == 'quick' and ht != 'quick':
             continue
         if tier == 'quick' and h.get('quick_only_for') and prop not in h['quick_only_for']:
             continue   # expensive harness: in the quick tier it runs only under its home property
